@@ -17,12 +17,13 @@
              deterministic, and the parities the exported detectors name on the sampled record are the protocol's
              (0 from the third cycle on for every initial state); one observable, deterministic, equal to the XOR
              of the final data values; the three variants export the identical instruction list.
-   agree   : (i) the description model (desc_of_chain / desc_of_layout) = the description object; (ii) the exported
+   agree   : (i) the description model (desc_of_chain / desc_of_layout) = the description object, and it passes the
+             well-formedness check the theorems assume (Wf.wf_desc); (ii) the exported
              program = rep_stim, instruction for instruction, in all three variants; (iii) Sem.exec of the exported
              program = what Stim sampled (record, detector parities, observable); probes: exec = Stim. *)
 From Coq Require Import ZArith List Bool String.
 Import ListNotations.
-From QCE Require Import Base.Prelude C09.Stim C09.Spec C09.Sem C09.Model.
+From QCE Require Import Base.Prelude C09.Stim C09.Spec C09.Sem C09.Model C09.Wf.
 From Gen Require Import Layouts.
 Open Scope Z_scope.
 
@@ -107,7 +108,11 @@ Definition desc_model (c : repcase) : option rdesc :=
   | SrcChain len =>
       if Z.odd len && (0 <? len) then Some (desc_of_chain (Z.to_nat ((len + 1) / 2)) (c_refocus c)) else None
   | SrcLayout name inv =>
-      match layout_named name with Some L => Some (desc_of_layout L inv (c_refocus c)) | None => None end
+      match layout_named name with
+      | Some L => if existsb (strs_eqb inv) (sub_chains (chain_of name))       (* a sub-chain the theorems range over *)
+                  then Some (desc_of_layout L inv (c_refocus c)) else None
+      | None => None
+      end
   end.
 
 Definition agree_variant (c : repcase) (D : rdesc) (v : variant) : bool :=
@@ -126,7 +131,7 @@ Definition agree_variant (c : repcase) (D : rdesc) (v : variant) : bool :=
 Definition agree_rep (c : repcase) : bool :=
   match desc_model c with
   | Some D =>
-      rdesc_eqb D (c_desc c)
+      rdesc_eqb D (c_desc c) && wf_desc D
       && agree_variant c D (c_plain c) && agree_variant c D (c_unrolled c) && agree_variant c D (c_flat c)
   | None => false
   end.
